@@ -58,7 +58,7 @@ class C13(Prop):
                   "pages/tool sources, tied by exact stdout comparison only on the generated valid-input distribution; printf rounding modelled by exact "
                   "rational round-half-even (L0); the crash/hang half is support, not proof: a tool death outside the explored inputs is not excluded. "
                   "Tools with no reference function (esl-ssdraw, -alimanip, -alimerge, -alimask, -alimap, -compalign, -compstruct, -construct, -histplot, "
-                  "-mixdchlet) are covered by the search only; esl-afetch and the other alignment formats of esl-reformat by round-trip monitors through the tool itself. "
+                  "-mixdchlet) are covered by the search only; esl-afetch, esl-alimask (-t, -g), esl-alimanip (--seq-k/-r, --lmin/--lmax) and the other alignment formats of esl-reformat by monitors that convert the tool's output back to afa and compare with recomputed rows. "
                   "36 distinct deaths of the unchanged tree are recorded in known_findings.d/C13.json keyed by tool/site.")
     trusted_base = ["reference functions (lean/EaselModel/Miniapps) tied to the tools by exact stdout comparison on generated valid inputs",
                     "python runner harness/h_miniapps.py, gcc, ASan/UBSan/LSan, process/file-system behaviour",
@@ -171,8 +171,16 @@ class C13(Prop):
         return fails
 
     # -------------------------------------------------------------------------------------------------
+    @staticmethod
+    def _fix(cases):
+        # an op list is one scenario (input files, index step, invocation, conversion): removing ops only produces a
+        # different, meaningless failure ("file not found"), so the engine's op-level shrinker is switched off
+        for c in cases:
+            c["sticky"] = len(c["ops"])
+        return cases
+
     def corpus(self, ctx):
-        return G.corpus_cases(ctx)
+        return self._fix(G.corpus_cases(ctx))
 
     def cases(self, ctx):
         if not getattr(ctx, "c13_tables", None):
@@ -180,7 +188,7 @@ class C13(Prop):
         out = []
         out += G.reference_cases(ctx)
         out += G.search_cases(ctx)
-        return out
+        return self._fix(out)
 
     # -------------------------------------------------------------------------------------------------
     def canonical(self, line):
